@@ -73,14 +73,16 @@ type H struct {
 	reorgs int
 
 	// store-level mode
-	stack   []*hblk                      // saved blocks above genesis
-	snaps   []map[string]string          // snapshot taken before each save
-	side    map[common.Uint256]*sideInfo // side data of special transactions
-	hashID  map[common.Uint256]int       // side-chain / deposit / draft hashes
-	dataID  map[string]int               // draft data
-	hashes  []common.Uint256
-	tainted map[int]bool
-	Layout  string // see store.go: position of ordinary outputs in special transactions ("" = random)
+	stack     []*hblk                      // saved blocks above genesis
+	snaps     []map[string]string          // snapshot taken before each save
+	side      map[common.Uint256]*sideInfo // side data of special transactions
+	hashID    map[common.Uint256]int       // side-chain / deposit / draft hashes
+	dataID    map[string]int               // draft data
+	hashes    []common.Uint256
+	tainted   map[int]bool
+	ShareData bool // draft-carrying transactions reuse the bytes already stored under a hash
+	draftData map[common.Uint256][]byte
+	Layout    string // see store.go: position of ordinary outputs in special transactions ("" = random)
 }
 
 func New(f *fixture.Fixture, rng *lib.Rng, id int, mode Mode, st *lib.Stats) *H {
@@ -446,7 +448,7 @@ func (h *H) tip() *hblk {
 	return h.blocks[hash]
 }
 
-func (h *H) ev(s string)               { h.evs = append(h.evs, s) }
+func (h *H) ev(s string)                     { h.evs = append(h.evs, s) }
 func (h *H) note(f string, a ...interface{}) { h.log = append(h.log, fmt.Sprintf(f, a...)) }
 
 // BuildOn assembles (and registers) a block with the given transactions.
@@ -1046,7 +1048,7 @@ func (h *H) GenesisBlk() *hblk { return h.blocks[h.F.Genesis.Hash()] }
 func (h *H) ValidBlock(parent *hblk, ntx int) *hblk      { return h.validBlock(parent, ntx) }
 func (h *H) FaultyBlock(parent *hblk, kind string) *hblk { return h.faultyBlock(parent, kind) }
 func (h *H) Note(f string, a ...interface{})             { h.note(f, a...) }
-func (h *H) Failures() int                                { return h.nFail }
+func (h *H) Failures() int                               { return h.nFail }
 func (b *hblk) Block() *types.Block                      { return b.b }
 func (b *hblk) Coinbase() interfaces.Transaction         { return b.txs[0].tx }
 func (b *hblk) Parent() *hblk                            { return b.parent }
